@@ -84,6 +84,32 @@ Section Morphism.
     destruct (fis0 K Z); cbn [negb hpt]; [reflexivity|].
     rewrite !(h_mul H), (h_inv H). reflexivity.
   Qed.
+  (* Edwards *)
+  Definition h2 (P : F * F) : F' * F' := (h (fst P), h (snd P)).
+  Definition h4 (P : F * F * F * F) : F' * F' * F' * F' := let '(x, y, t, z) := P in (h x, h y, h t, h z).
+
+  Lemma eaff_add_morph : forall a d P Q,
+    h2 (eaff_add K a d P Q) = eaff_add K' (h a) (h d) (h2 P) (h2 Q).
+  Proof.
+    intros a d [x1 y1] [x2 y2]. unfold h2. cbn [eaff_add fst snd].
+    repeat first [rewrite (h_div H) | rewrite (h_add H) | rewrite (h_sub H) | rewrite (h_mul H) | rewrite (h_1 H)]. reflexivity.
+  Qed.
+
+  Lemma E_Add_morph : forall a d x1 y1 t1 z1 x2 y2 t2 z2,
+    h4 (E_Add K a d x1 y1 t1 z1 x2 y2 t2 z2) =
+    E_Add K' (h a) (h d) (h x1) (h y1) (h t1) (h z1) (h x2) (h y2) (h t2) (h z2).
+  Proof.
+    intros. cbv [E_Add h4].
+    repeat first [rewrite (h_add H) | rewrite (h_sub H) | rewrite (h_mul H)]. reflexivity.
+  Qed.
+
+  Lemma e_to_affine_morph : forall P, h2 (e_to_affine K P) = e_to_affine K' (h4 P).
+  Proof.
+    intros [[[X Y] T] Z]. unfold e_to_affine, h4, h2. cbv [E_ToAffine]. rewrite <- h_is0.
+    destruct (fis0 K Z); cbn [negb fst snd].
+    - rewrite (h_0 H). reflexivity.
+    - rewrite !(h_mul H), (h_inv H). reflexivity.
+  Qed.
 End Morphism.
 
 (* ---- the field of canonical residues modulo a prime ------------------------------------------- *)
@@ -177,5 +203,23 @@ Section FpField.
     rewrite (waff_add_morph _ _ _ fp_val_morph) in HA.
     rewrite !(w_to_affine_morph _ _ _ fp_val_morph) in HA.
     unfold proj_add in HA. rewrite (W_Add_morph _ _ _ fp_val_morph) in HA. cbn [h3] in HA. exact HA.
+  Qed.
+
+  (* the same for the extended-coordinate Edwards addition *)
+  Theorem zp_ed_add_program_is_model : forall a d s : Fp,
+    fadd FpOps (f1 FpOps) (f1 FpOps) <> f0 FpOps ->
+    (forall r : Fp, fmul FpOps r r <> d) -> fmul FpOps s s = a ->
+    forall P Q : Fp * Fp * Fp * Fp, e_valid FpOps a d P -> e_valid FpOps a d Q ->
+    let '(X1, Y1, T1, Z1) := h4 fp_val P in
+    let '(X2, Y2, T2, Z2) := h4 fp_val Q in
+    e_to_affine (Zp p) (E_Add (Zp p) (fp_val a) (fp_val d) X1 Y1 T1 Z1 X2 Y2 T2 Z2) =
+    eaff_add (Zp p) (fp_val a) (fp_val d) (e_to_affine (Zp p) (X1, Y1, T1, Z1)) (e_to_affine (Zp p) (X2, Y2, T2, Z2)).
+  Proof.
+    intros a d s H2 Hd Hs [[[X1 Y1] T1] Z1] [[[X2 Y2] T2] Z2] V1 V2. cbn [h4].
+    destruct (e_add_correct FpOps FpLaws a d H2 Hd s Hs _ _ V1 V2) as [_ HA].
+    apply (f_equal (h2 fp_val)) in HA.
+    rewrite (eaff_add_morph _ _ _ fp_val_morph) in HA.
+    rewrite !(e_to_affine_morph _ _ _ fp_val_morph) in HA.
+    unfold e_add in HA. rewrite (E_Add_morph _ _ _ fp_val_morph) in HA. cbn [h4] in HA. exact HA.
   Qed.
 End FpField.
